@@ -1,5 +1,5 @@
 (* Proofs about the metadata-store models (C05). *)
-From Coq Require Import List ZArith Bool Lia.
+From Coq Require Import List ZArith Bool Lia ZifyBool.
 From SV Require Import Model.TreeStores.
 Import ListNotations.
 Open Scope Z_scope.
@@ -20,4 +20,396 @@ Proof.
   - unfold put_nz. destruct (nl - 1 =? 0) eqn:E.
     + apply Z.eqb_eq in E. replace (nl =? 1) with true by (symmetry; apply Z.eqb_eq; lia). reflexivity.
     + apply Z.eqb_neq in E. replace (nl =? 1) with false by (symmetry; apply Z.eqb_neq; lia). lia.
+Qed.
+
+(* ---------- chunk tables: sizes recomputed by the db store ---------- *)
+
+Fixpoint tiles (l : list chunk) (size : Z) : Prop :=
+  match l with
+  | [] => True
+  | c :: t => c_size c = (match t with c' :: _ => c_choff c' | [] => size end) - c_choff c /\ tiles t size
+  end.
+
+(* strictly increasing chunk offsets *)
+Fixpoint ssorted (l : list chunk) : Prop :=
+  match l with
+  | [] => True
+  | c :: t => (forall x, In x t -> c_choff c < c_choff x) /\ ssorted t
+  end.
+
+Lemma chunk_eta : forall c, CH (c_choff c) (c_size c) (c_dg c) (c_off c) = c.
+Proof. destruct c; reflexivity. Qed.
+
+Lemma recompute_id : forall l size, tiles l size -> recompute l size = l.
+Proof.
+  induction l as [|c t IH]; intros size H; simpl in *; [reflexivity|].
+  destruct H as [Hc Ht]. rewrite (IH size Ht). rewrite <- Hc. rewrite chunk_eta. reflexivity.
+Qed.
+
+Lemma ins_chunk_last : forall b c l, (forall x, In x l -> c_choff x < c_choff c) -> ins_chunk b c l = l ++ [c].
+Proof.
+  induction l as [|c' t IH]; intros H; simpl; [reflexivity|].
+  assert (Hc' : c_choff c' < c_choff c) by (apply H; left; reflexivity).
+  destruct (c_choff c <? c_choff c') eqn:E1; [apply Z.ltb_lt in E1; lia|].
+  destruct (c_choff c =? c_choff c') eqn:E2; [apply Z.eqb_eq in E2; lia|].
+  rewrite andb_false_r. rewrite IH; [reflexivity|]. intros x Hx. apply H. right. exact Hx.
+Qed.
+
+Lemma ssorted_app_lt : forall acc c t, ssorted (acc ++ c :: t) -> forall x, In x acc -> c_choff x < c_choff c.
+Proof.
+  induction acc as [|a acc IH]; intros c t H x Hx; [destruct Hx|].
+  simpl in H. destruct H as [Ha Hs]. destruct Hx as [<-|Hx].
+  - apply Ha. apply in_or_app. right. left. reflexivity.
+  - exact (IH c t Hs x Hx).
+Qed.
+
+Lemma fold_ins_sorted : forall extras acc, ssorted (acc ++ extras) ->
+  fold_left (fun a c => ins_chunk true c a) extras acc = acc ++ extras.
+Proof.
+  induction extras as [|c t IH]; intros acc H; simpl; [rewrite app_nil_r; reflexivity|].
+  rewrite ins_chunk_last by (exact (ssorted_app_lt acc c t H)).
+  rewrite IH; rewrite <- app_assoc; simpl; [reflexivity|exact H].
+Qed.
+
+Lemma read_chunks_id : forall l size, ssorted l -> tiles l size -> read_chunks l size = l.
+Proof.
+  intros [|first extras] size Hs Ht; [reflexivity|].
+  unfold read_chunks. simpl in Hs. destruct Hs as [Hf Hs].
+  rewrite (fold_ins_sorted extras [] Hs). simpl app.
+  replace (ins_chunk false first extras) with (first :: extras).
+  - apply recompute_id. exact Ht.
+  - destruct extras as [|c' t]; [reflexivity|]. simpl.
+    assert (c_choff first < c_choff c') by (apply Hf; left; reflexivity).
+    destruct (c_choff first <? c_choff c') eqn:E; [reflexivity|apply Z.ltb_ge in E; lia].
+Qed.
+
+(* every chunk of a tiling table with positive sizes starts before the end of the file *)
+Lemma tiles_lt_size : forall l size, ssorted l -> tiles l size -> Forall (fun c => 0 < c_size c) l ->
+  forall x, In x l -> c_choff x < size.
+Proof.
+  induction l as [|c t IH]; intros size Hs Ht Hp x Hx; [destruct Hx|].
+  simpl in Hs, Ht. destruct Hs as [Hc Hs]. destruct Ht as [Hsz Ht]. inversion Hp as [|? ? Hpc Hpt]; subst.
+  destruct Hx as [<-|Hx]; [|exact (IH size Hs Ht Hpt x Hx)].
+  destruct t as [|c' t'].
+  - lia.
+  - assert (c_choff c' < size) by (apply (IH size Hs Ht Hpt); left; reflexivity). lia.
+Qed.
+
+(* the table a conforming file has: first chunk = the reg entry, then its chunk entries *)
+Definition file_table (r : entry) (cs : list entry) : list chunk :=
+  mem_chunk r None :: map (fun c => mem_chunk c (Some (e_size r))) cs.
+
+Definition digest_ok (e : entry) : Prop := e_cdg e <> 0 \/ e_dg e = 0.
+
+Record file_conforming (r : entry) (cs : list entry) : Prop := {
+  fc_reg : e_type r = TReg;
+  fc_chunks : Forall (fun c => e_type c = TChunk /\ e_size c = 0) cs;
+  fc_first : e_choff r = 0;
+  fc_sorted : ssorted (file_table r cs);
+  fc_tiles : tiles (file_table r cs) (e_size r);
+  fc_pos : Forall (fun c => 0 < c_size c) (file_table r cs);
+  fc_dg : Forall digest_ok (r :: cs)
+}.
+
+Lemma db_chunk_mem_chunk : forall e sz, digest_ok e -> (e_type e = TChunk \/ e_type e = TReg) ->
+  db_chunk e sz = mem_chunk e (Some sz).
+Proof.
+  intros e sz Hd Ht. unfold db_chunk, mem_chunk. f_equal.
+  - unfold db_chsize, mem_chsize. destruct Ht as [Ht|Ht]; rewrite Ht; simpl; reflexivity.
+  - unfold mem_dg. destruct (e_cdg e =? 0) eqn:E; [|reflexivity].
+    apply Z.eqb_eq in E. destruct Hd as [Hd|Hd]; [contradiction|]. rewrite E, Hd. reflexivity.
+Qed.
+
+Lemma mem_chunk_reg : forall r lr, e_type r = TReg -> mem_chunk r lr = mem_chunk r None.
+Proof. intros r lr H. unfold mem_chunk, mem_chsize. rewrite H. destruct lr; reflexivity. Qed.
+
+Lemma filter_pos_id : forall l, Forall (fun c => 0 < c_size c) l -> filter (fun c => c_size c >? 0) l = l.
+Proof.
+  induction l as [|c t IH]; intros H; [reflexivity|]. inversion H; subst. simpl.
+  destruct (c_size c >? 0) eqn:E; [rewrite IH by assumption; reflexivity|].
+  rewrite Z.gtb_ltb in E. apply Z.ltb_ge in E. lia.
+Qed.
+
+Lemma map_db_mem : forall sz cs, Forall (fun c => e_type c = TChunk /\ e_size c = 0) cs -> Forall digest_ok cs ->
+  map (fun c => db_chunk c sz) cs = map (fun c => mem_chunk c (Some sz)) cs.
+Proof.
+  induction cs as [|c t IH]; intros Hc Hd; [reflexivity|]. simpl.
+  inversion Hc; subst. inversion Hd; subst. rewrite db_chunk_mem_chunk by tauto. f_equal. apply IH; assumption.
+Qed.
+
+Lemma file_db_stored_table : forall r cs, file_conforming r cs -> file_db_stored r cs = file_table r cs.
+Proof.
+  intros r cs [Hr Hc H0 Hs Ht Hp Hd]. unfold file_db_stored, file_table.
+  inversion Hd as [|? ? Hdr Hdc]; subst. inversion Hp as [|? ? Hpr Hpc]; subst.
+  assert (Hsz : 0 < e_size r).
+  { assert (c_choff (mem_chunk r None) < e_size r)
+      by (apply (tiles_lt_size _ _ Hs Ht Hp); left; reflexivity).
+    simpl in H. lia. }
+  destruct (e_size r >? 0) eqn:E; [|rewrite Z.gtb_ltb in E; apply Z.ltb_ge in E; lia].
+  simpl. f_equal.
+  - rewrite db_chunk_mem_chunk by (auto). apply mem_chunk_reg. exact Hr.
+  - assert (Hm := map_db_mem (e_size r) cs Hc Hdc).
+    rewrite Hm. apply filter_pos_id. exact Hpc.
+Qed.
+
+Lemma file_mem_ents_table : forall r c cs, file_conforming r (c :: cs) -> file_mem_ents r (c :: cs) = file_table r (c :: cs).
+Proof.
+  intros r c cs [Hr Hc H0 Hs Ht Hp Hd]. unfold file_mem_ents, file_table.
+  assert (Hlt : c_choff (mem_chunk c (Some (e_size r))) < e_size r).
+  { apply (tiles_lt_size _ _ Hs Ht Hp). right. left. reflexivity. }
+  simpl in Hs, Ht. destruct Hs as [Hs0 _]. destruct Ht as [Ht0 _].
+  assert (Hgt : c_choff (mem_chunk r None) < c_choff (mem_chunk c (Some (e_size r)))) by (apply Hs0; left; reflexivity).
+  simpl in Ht0, Hgt, Hlt. rewrite H0 in *.
+  unfold mem_chsize in Ht0. rewrite Hr in Ht0.
+  assert (Hraw : 0 < e_chsize r < e_size r).
+  { destruct (e_chsize r =? 0) eqn:E.
+    - simpl in Ht0. destruct (e_size r =? 0) eqn:E2; simpl in Ht0.
+      + apply Z.eqb_eq in E2. lia.
+      + lia.
+    - simpl in Ht0. lia. }
+  replace ((e_chsize r >? 0) && (e_chsize r <? e_size r)) with true; [reflexivity|].
+  symmetry. apply andb_true_iff. split; [rewrite Z.gtb_ltb; apply Z.ltb_lt; lia|apply Z.ltb_lt; lia].
+Qed.
+
+(* chunk sizes recomputed from neighbouring offsets are the TOC's chunk sizes: both stores hold the same table *)
+Lemma chunk_tables_agree : forall r cs, file_conforming r cs ->
+  read_chunks (file_db_stored r cs) (e_size r) = file_table r cs.
+Proof.
+  intros r cs H. rewrite (file_db_stored_table r cs H). apply read_chunks_id; [exact (fc_sorted _ _ H)|exact (fc_tiles _ _ H)].
+Qed.
+
+Lemma chunk_search_single : forall c off, c_choff c = 0 -> 0 < c_size c -> 0 <= off ->
+  chunk_search [c] off = if off >=? c_size c then None else Some (c_choff c, c_size c, c_dg c).
+Proof.
+  intros c off H0 Hp Hoff. unfold chunk_search. simpl. unfold chunk_pred. simpl. rewrite H0.
+  destruct (0 >=? off) eqn:E1; destruct (off >? 0) eqn:E2; destruct (off <? 0 + c_size c) eqn:E3;
+    destruct (off >=? c_size c) eqn:E4; simpl; rewrite ?H0; try reflexivity; exfalso;
+    rewrite ?Z.geb_leb, ?Z.gtb_ltb in *;
+    repeat match goal with
+    | H : (_ <=? _) = true |- _ => apply Z.leb_le in H
+    | H : (_ <=? _) = false |- _ => apply Z.leb_gt in H
+    | H : (_ <? _) = true |- _ => apply Z.ltb_lt in H
+    | H : (_ <? _) = false |- _ => apply Z.ltb_ge in H
+    end; lia.
+Qed.
+
+(* ... and ChunkEntryForOffset answers the same at every file offset *)
+Lemma chunk_lookup_agree : forall r cs off, file_conforming r cs -> 0 <= off ->
+  file_mem_lookup r cs off = file_db_lookup r cs off.
+Proof.
+  intros r cs off H Hoff. unfold file_db_lookup. rewrite (chunk_tables_agree r cs H).
+  destruct cs as [|c cs].
+  - unfold file_mem_lookup, file_mem_ents. simpl map. rewrite app_nil_r.
+    replace (Nat.ltb (length (if (e_chsize r >? 0) && (e_chsize r <? e_size r) then [mem_chunk r None] else [])) 2) with true
+      by (destruct ((e_chsize r >? 0) && (e_chsize r <? e_size r)); reflexivity).
+    destruct H as [Hr Hc H0 Hs Ht Hp Hd]. unfold file_table in *. simpl map in *.
+    simpl in Ht. destruct Ht as [Ht _]. inversion Hp as [|? ? Hp0 _]; subst.
+    rewrite chunk_search_single; [reflexivity|exact H0|exact Hp0|exact Hoff].
+  - unfold file_mem_lookup. rewrite (file_mem_ents_table r c cs H). reflexivity.
+Qed.
+
+(* ---------- several layers in one database ---------- *)
+
+Lemma pick_id_fresh : forall tries d cands c, pick_id d cands tries = Some c -> l_find c d = None.
+Proof.
+  induction tries as [|n IH]; intros d cands c H; destruct cands as [|x t]; simpl in H; try discriminate.
+  destruct (l_find x d) eqn:E; [exact (IH d t c H)|]. inversion H; subst. exact E.
+Qed.
+
+Lemma l_find_del_other : forall d i id, i <> id -> l_find id (l_del i d) = l_find id d.
+Proof.
+  induction d as [|[k v] t IH]; intros i id Hne; simpl; [reflexivity|].
+  destruct (i =? k) eqn:E1.
+  - apply Z.eqb_eq in E1. subst k. rewrite IH by exact Hne.
+    destruct (id =? i) eqn:E2; [apply Z.eqb_eq in E2; congruence|reflexivity].
+  - simpl. rewrite IH by exact Hne. reflexivity.
+Qed.
+
+Lemma l_step_frame : forall d o id s, l_find id d = Some s -> lop_touches id o = false -> l_find id (l_step d o) = Some s.
+Proof.
+  intros d o id s Hf Ht. destruct o as [cands toc|i|i]; simpl in *.
+  - destruct (pick_id d cands 100) as [c|] eqn:E; [|exact Hf].
+    assert (Hc : l_find c d = None) by exact (pick_id_fresh _ _ _ _ E).
+    assert (Hne : (id =? c) = false).
+    { destruct (id =? c) eqn:E2; [|reflexivity]. apply Z.eqb_eq in E2. subst. rewrite Hf in Hc. discriminate. }
+    destruct (db_build toc); simpl; rewrite Hne; exact Hf.
+  - rewrite l_find_del_other; [exact Hf|]. apply Z.eqb_neq in Ht. exact Ht.
+  - exact Hf.
+Qed.
+
+Lemma l_run_frame : forall os d id s, l_find id d = Some s ->
+  (forall o, In o os -> lop_touches id o = false) -> l_find id (l_run d os) = Some s.
+Proof.
+  induction os as [|o t IH]; intros d id s Hf Hall; simpl; [exact Hf|].
+  apply IH.
+  - apply l_step_frame; [exact Hf|apply Hall; left; reflexivity].
+  - intros o' Ho'. apply Hall. right. exact Ho'.
+Qed.
+
+Lemma l_view_frame : forall os d id probes, l_find id d <> None ->
+  (forall o, In o os -> lop_touches id o = false) -> l_view (l_run d os) id probes = l_view d id probes.
+Proof.
+  intros os d id probes Hf Hall. destruct (l_find id d) as [s|] eqn:E; [|contradiction].
+  unfold l_view. rewrite (l_run_frame os d id s E Hall), E. reflexivity.
+Qed.
+
+(* a newly opened layer gets an id that is not live, and shows the filesystem of its own TOC *)
+Lemma l_open_fresh : forall d cands toc c, pick_id d cands 100 = Some c ->
+  l_find c d = None /\ l_view (l_step d (LOpen cands toc)) c = (fun probes => match db_build toc with
+     | Some _ => view_db false toc probes | None => l_view [(c, d_init)] c probes end).
+Proof.
+  intros d cands toc c H. split; [exact (pick_id_fresh _ _ _ _ H)|].
+  unfold l_step. rewrite H. unfold l_view, view_db.
+  destruct (db_build toc) as [s|]; simpl; rewrite Z.eqb_refl; reflexivity.
+Qed.
+
+(* ---------- TOC digest ---------- *)
+
+Lemma digest_agree : forall (H : list Z -> Z) k bs, digest_mem H k bs = digest_db H bs.
+Proof. intros H k bs. unfold digest_mem, digest_db. rewrite firstn_skipn. reflexivity. Qed.
+
+(* ---------- acceptance on hardlink-free TOCs ---------- *)
+
+Lemma d_add_chunk_last : forall s e cs, ds_last (d_add_chunk s e cs) = ds_last s.
+Proof.
+  intros s e cs. unfold d_add_chunk.
+  destruct ((etype_eqb (e_type e) TReg && (e_size e >? 0)) || (etype_eqb (e_type e) TChunk && (cs >? 0))); [|reflexivity].
+  destruct (ds_last s) as [i|] eqn:El; [|exact El].
+  destruct (nth_error (ds_nodes s) i); simpl; exact El.
+Qed.
+
+Lemma db_step_ok : forall s e, e_type e <> THardlink -> (e_type e = TChunk -> ds_last s <> None) ->
+  exists s', db_step (Some s) e = Some s' /\ ds_last s' <> None.
+Proof.
+  intros s e Hh Hc. unfold db_step.
+  destruct (etype_eqb (e_type e) TChunk) eqn:Ec.
+  - assert (e_type e = TChunk) by (destruct (e_type e); simpl in Ec; congruence).
+    destruct (ds_last s) as [i|] eqn:El; [|exfalso; apply (Hc H); reflexivity].
+    eexists. split; [reflexivity|]. rewrite d_add_chunk_last, El. discriminate.
+  - replace (etype_eqb (e_type e) THardlink) with false by (destruct (e_type e); simpl; congruence).
+    match goal with |- context [match ?r with Some p => _ | None => None end] =>
+      assert (Hr : exists s1 id, r = Some (s1, id)) end.
+    { destruct (if etype_eqb (e_type e) TDir then d_find s (clean (e_name e)) else None); eexists; eexists; reflexivity. }
+    destruct Hr as [s1 [id Hr]]. rewrite Hr.
+    eexists. split; [reflexivity|]. rewrite d_add_chunk_last. simpl. discriminate.
+Qed.
+
+Lemma db_fold_ok : forall toc s, ds_last s <> None -> Forall (fun e => e_type e <> THardlink) toc ->
+  fold_left db_step toc (Some s) <> None.
+Proof.
+  induction toc as [|e t IH]; intros s Hl Hf; cbn [fold_left]; [discriminate|].
+  inversion Hf; subst.
+  destruct (db_step_ok s e) as [s' [Hs' Hl']]; [assumption|intros _; exact Hl|].
+  rewrite Hs'. apply IH; assumption.
+Qed.
+
+Lemma db_accepts : forall toc, Forall (fun e => e_type e <> THardlink) toc ->
+  match toc with e :: _ => e_type e <> TChunk | [] => True end -> db_build toc <> None.
+Proof.
+  intros [|e t] Hf H1; unfold db_build; cbn [fold_left]; [discriminate|].
+  inversion Hf; subst.
+  destruct (db_step_ok d_init e) as [s' [Hs' Hl']]; [assumption|intros Hc; contradiction|].
+  rewrite Hs'. apply db_fold_ok; assumption.
+Qed.
+
+Lemma pass2_step_ok : forall s i e, e_type e <> THardlink -> pass2_step (Some s) (i, e) <> None.
+Proof.
+  intros s i e Hh. unfold pass2_step.
+  destruct (etype_eqb (e_type e) TChunk); [discriminate|].
+  destruct (clean (e_name e)) as [|base par]; [discriminate|].
+  destruct (m_goc s par) as [s1 pid].
+  replace (etype_eqb (e_type e) THardlink) with false by (destruct (e_type e); simpl; congruence).
+  discriminate.
+Qed.
+
+Lemma pass2_fold_ok : forall toc n s, Forall (fun e => e_type e <> THardlink) toc ->
+  fold_left pass2_step (number n toc) (Some s) <> None.
+Proof.
+  induction toc as [|e t IH]; intros n s Hf; cbn [fold_left number]; [discriminate|].
+  inversion Hf; subst.
+  destruct (pass2_step (Some s) (n, e)) as [s'|] eqn:E; [|exfalso; exact (pass2_step_ok s n e H1 E)].
+  apply IH. assumption.
+Qed.
+
+Lemma mem_accepts : forall toc, Forall (fun e => e_type e <> THardlink) toc -> mem_build toc <> None.
+Proof.
+  intros toc Hf. unfold mem_build.
+  destruct (fold_left pass2_step (number 0 toc) (Some (MS (p1_nodes (pass1 toc)) (p1_m (pass1 toc))))) as [s|] eqn:E.
+  - destruct (ms_m s); discriminate.
+  - exfalso. exact (pass2_fold_ok toc 0%nat _ Hf E).
+Qed.
+
+(* ---------- varint bytes ---------- *)
+
+Lemma unzigzag_zigzag : forall x, unzigzag (zigzag x) = x.
+Proof.
+  intro x. unfold zigzag, unzigzag.
+  destruct (x <? 0) eqn:E; [apply Z.ltb_lt in E|apply Z.ltb_ge in E].
+  - destruct ((- 2 * x - 1) mod 2 =? 0) eqn:E2; [apply Z.eqb_eq in E2|apply Z.eqb_neq in E2];
+      pose proof (Z.div_mod (- 2 * x - 1) 2 ltac:(lia)); pose proof (Z.mod_pos_bound (- 2 * x - 1) 2 ltac:(lia)); lia.
+  - destruct ((2 * x) mod 2 =? 0) eqn:E2; [apply Z.eqb_eq in E2|apply Z.eqb_neq in E2];
+      pose proof (Z.div_mod (2 * x) 2 ltac:(lia)); pose proof (Z.mod_pos_bound (2 * x) 2 ltac:(lia)); lia.
+Qed.
+
+Lemma put_uvarint_S : forall n u,
+  put_uvarint (S n) u = if u <? 128 then [u] else (u mod 128 + 128) :: put_uvarint n (u / 128).
+Proof. reflexivity. Qed.
+
+Lemma uvarint_put : forall n u, 0 <= u < 128 ^ Z.of_nat (S n) -> uvarint (put_uvarint (S n) u) = Some u.
+Proof.
+  induction n as [|n IH]; intros u Hu; rewrite put_uvarint_S; destruct (u <? 128) eqn:E;
+    try (simpl; rewrite E; reflexivity).
+  - apply Z.ltb_ge in E. change (128 ^ Z.of_nat 1) with 128 in Hu. lia.
+  - apply Z.ltb_ge in E. cbn [uvarint].
+    assert (Hm : 0 <= u mod 128 < 128) by (apply Z.mod_pos_bound; lia).
+    destruct (u mod 128 + 128 <? 128) eqn:E2; [apply Z.ltb_lt in E2; lia|].
+    rewrite IH.
+    + cbn [option_map]. f_equal. pose proof (Z.div_mod u 128 ltac:(lia)). lia.
+    + rewrite (Nat2Z.inj_succ (S n)), Z.pow_succ_r in Hu by lia. split.
+      * apply Z.div_pos; lia.
+      * apply Z.div_lt_upper_bound; lia.
+Qed.
+
+Lemma int_codec : forall x, - 2 ^ 63 <= x < 2 ^ 63 -> decode_int (encode_int x) = Some x.
+Proof.
+  intros x Hx. unfold decode_int, encode_int. rewrite uvarint_put.
+  - simpl. rewrite unzigzag_zigzag. reflexivity.
+  - unfold zigzag. destruct (x <? 0) eqn:E; [apply Z.ltb_lt in E|apply Z.ltb_ge in E];
+      change (128 ^ Z.of_nat 10) with 1180591620717411303424; change (2 ^ 63) with 9223372036854775808 in Hx; lia.
+Qed.
+
+(* ---------- names ---------- *)
+
+Definition plain (c : Z) : Prop := c <> 0 /\ c <> 1 /\ c <> 2.
+
+Lemma clean_step_plain : forall acc c, Forall plain acc -> Forall plain (clean_step acc c).
+Proof.
+  intros acc c H. unfold clean_step.
+  destruct ((c =? 0) || (c =? 1)) eqn:E1; [exact H|].
+  destruct (c =? 2) eqn:E2.
+  - destruct acc; [exact H|]. inversion H; assumption.
+  - apply orb_false_iff in E1. destruct E1 as [E0 E1].
+    apply Z.eqb_neq in E0. apply Z.eqb_neq in E1. apply Z.eqb_neq in E2.
+    constructor; [repeat split; assumption|exact H].
+Qed.
+
+Lemma fold_clean_plain : forall raw acc, Forall plain acc -> Forall plain (fold_left clean_step raw acc).
+Proof. induction raw as [|c t IH]; intros acc H; simpl; [exact H|]. apply IH. apply clean_step_plain. exact H. Qed.
+
+Lemma fold_clean_of_plain : forall l acc, Forall plain l -> fold_left clean_step l acc = rev l ++ acc.
+Proof.
+  induction l as [|c t IH]; intros acc H; simpl; [reflexivity|]. inversion H as [|? ? [H0 [H1 H2]] Ht]; subst.
+  unfold clean_step at 2.
+  replace ((c =? 0) || (c =? 1)) with false
+    by (symmetry; apply orb_false_iff; split; apply Z.eqb_neq; assumption).
+  replace (c =? 2) with false by (symmetry; apply Z.eqb_neq; assumption).
+  rewrite IH by exact Ht. rewrite <- app_assoc. reflexivity.
+Qed.
+
+(* cleaning is a normal form: spelling the cleaned path out again and cleaning it gives the same key *)
+Lemma clean_idempotent : forall raw, clean (rev (clean raw)) = clean raw.
+Proof.
+  intro raw. unfold clean at 1. rewrite fold_clean_of_plain.
+  - rewrite rev_involutive, app_nil_r. reflexivity.
+  - apply Forall_rev. apply fold_clean_plain. constructor.
 Qed.
